@@ -16,6 +16,11 @@ def _names(meth, kinds):
     return [f'{k}::{meth}' for k in kinds]
 
 
+@pattern(r'^<Option as Default>::default$')
+def m_option_default(c):
+    return none(c.dest_ty or 'Option')
+
+
 @model(*_names('new', MAPS + SETS), *_names('with_capacity', MAPS + SETS),
        '<HashMap as Default>::default', '<BTreeMap as Default>::default', '<HashSet as Default>::default',
        '<BTreeSet as Default>::default')
